@@ -120,7 +120,16 @@ def r11_4(chk):
     x0, x1, y0, y1, X = (Poly.atom(n) for n in ("x0", "x1", "y0", "y1", az))
     ok = val is not None and T.equal(val, y0 + (y1 - y0) * (X - x0) / (x1 - x0))
     chk.obl("R11.4", f"{f.ref}::linear", ok, "y0 + (y1 − y0)(az − x0)/(x1 − x0)" if ok else f"{T.fmt(val) if val is not None else '?'}", loc(f, f.node))
-    chk.floor("R11.4", 6)
+    from ..ownership import Fresh, stores_through
+    fr = Fresh(f, chk.repo)
+    bad = []
+    for text, root_, node in stores_through(f, fr.flow):
+        vals = fr.classify(root_)
+        if any(v != "fresh" and v[0] in ("alias", "view") and v[1] != "self" for v in vals) or unparse(root_).startswith("self.mask"):
+            bad.append(text)
+    chk.inst("R11.4", f"{f.ref}::table-not-written", not bad, "the mask table is only read (a query cannot change later answers)" if not bad else
+             f"{bad} writes into the station's mask table (numpy slices are views): a query in the wrap segment corrupts the table for every later query", loc(f, f.node))
+    chk.floor("R11.4", 7)
 
 
 def r11_5(chk):
